@@ -6,12 +6,12 @@ use alloc::{vec, vec::Vec};
 use ixdtf::parsers::records::{TimeZoneRecord, UtcOffsetRecord};
 use num_traits::ToPrimitive;
 
-use crate::builtins::core::duration::DateDuration;
 use crate::parsers::{
     parse_allowed_timezone_formats, parse_identifier, parse_offset, FormattableOffset,
     FormattableTime, Precision,
 };
 use crate::provider::{TimeZoneOffset, TimeZoneProvider};
+use crate::Sign;
 use crate::{
     builtins::core::{duration::normalized::NormalizedTimeDuration, Instant},
     iso::{IsoDate, IsoDateTime, IsoTime},
@@ -19,9 +19,8 @@ use crate::{
     time::EpochNanoseconds,
     TemporalError, TemporalResult, ZonedDateTime,
 };
-use crate::{Calendar, Sign};
 
-const NS_IN_HOUR: i128 = 60 * 60 * 1000 * 1000 * 1000;
+const NS_IN_DAY: i128 = 24 * 60 * 60 * 1000 * 1000 * 1000;
 
 /// A UTC time zone offset stored in minutes
 #[derive(Debug, Clone, Copy, PartialEq, Eq)]
@@ -269,49 +268,13 @@ impl TimeZone {
             return Err(TemporalError::range().with_message("Rejecting ambiguous time zones."));
         }
 
-        // NOTE: Below is rather greedy, but should in theory work.
-        //
-        // Primarily moving hour +/-3 to account Australia/Troll as
-        // the precision of before/after does not entirely matter as
-        // long is it is distinctly before / after any transition.
-
-        // 6. Let before be the latest possible ISO Date-Time Record for
-        //    which CompareISODateTime(before, isoDateTime) = -1 and !
-        //    GetPossibleEpochNanoseconds(timeZone, before) is not
-        //    empty.
-        let before = iso.add_date_duration(
-            Calendar::default(),
-            &DateDuration::default(),
-            NormalizedTimeDuration(-3 * NS_IN_HOUR),
-            None,
-        )?;
-
-        // 7. Let after be the earliest possible ISO Date-Time Record
-        //    for which CompareISODateTime(after, isoDateTime) = 1 and !
-        //    GetPossibleEpochNanoseconds(timeZone, after) is not empty.
-        let after = iso.add_date_duration(
-            Calendar::default(),
-            &DateDuration::default(),
-            NormalizedTimeDuration(3 * NS_IN_HOUR),
-            None,
-        )?;
-
-        // 8. Let beforePossible be !
-        //    GetPossibleEpochNanoseconds(timeZone, before).
-        // 9. Assert: beforePossible's length is 1.
-        let before_possible = self.get_possible_epoch_ns_for(before, provider)?;
-        debug_assert_eq!(before_possible.len(), 1);
-        // 10. Let afterPossible be !
-        //     GetPossibleEpochNanoseconds(timeZone, after).
-        // 11. Assert: afterPossible's length is 1.
-        let after_possible = self.get_possible_epoch_ns_for(after, provider)?;
-        debug_assert_eq!(after_possible.len(), 1);
-        // 12. Let offsetBefore be GetOffsetNanosecondsFor(timeZone,
-        //     beforePossible[0]).
-        let offset_before = self.get_offset_nanos_for(before_possible[0].0, provider)?;
-        // 13. Let offsetAfter be GetOffsetNanosecondsFor(timeZone,
-        //     afterPossible[0]).
-        let offset_after = self.get_offset_nanos_for(after_possible[0].0, provider)?;
+        // 6-13. offsetBefore and offsetAfter are the offsets in force on either side of the
+        // transition that skips `iso`. A UTC offset is shorter than a day, so the instants one
+        // day before and one day after `iso` read as a UTC date-time lie before and after that
+        // transition, whatever the size of the gap.
+        let utc_ns = crate::iso::to_unchecked_epoch_nanoseconds(iso.date, &iso.time);
+        let offset_before = self.get_offset_nanos_for(utc_ns - NS_IN_DAY, provider)?;
+        let offset_after = self.get_offset_nanos_for(utc_ns + NS_IN_DAY, provider)?;
         // 14. Let nanoseconds be offsetAfter - offsetBefore.
         let nanoseconds = offset_after - offset_before;
         // 15. Assert: abs(nanoseconds) ≤ nsPerDay.
@@ -337,7 +300,9 @@ impl TimeZone {
             let possible = self.get_possible_epoch_ns_for(earlier, provider)?;
             // f. Assert: possibleEpochNs is not empty.
             // g. Return possibleEpochNs[0].
-            return Ok(possible[0]);
+            return possible.first().copied().ok_or_else(|| {
+                TemporalError::range().with_message("Could not disambiguate the local time.")
+            });
         }
         // 17. Assert: disambiguation is compatible or later.
         // 18. Let timeDuration be TimeDurationFromComponents(0, 0, 0, 0, 0, nanoseconds).
@@ -356,10 +321,11 @@ impl TimeZone {
         // 22. Set possibleEpochNs to ? GetPossibleEpochNanoseconds(timeZone, laterDateTime).
         let possible = self.get_possible_epoch_ns_for(later, provider)?;
         // 23. Set n to possibleEpochNs's length.
-        let n = possible.len();
         // 24. Assert: n ≠ 0.
         // 25. Return possibleEpochNs[n - 1].
-        Ok(possible[n - 1])
+        possible.last().copied().ok_or_else(|| {
+            TemporalError::range().with_message("Could not disambiguate the local time.")
+        })
     }
 
     pub(crate) fn get_start_of_day(
